@@ -44,6 +44,7 @@ class _Rule(Contract):
 
 
 class SG1(_Rule):
+    pure = True   # does not modify any pre-existing object
     qual = "Independencies.closure.<locals>.sg1"
 
     def variants(self, ex):
@@ -64,6 +65,7 @@ class SG1(_Rule):
 
 
 class SG2(_Rule):
+    pure = True   # does not modify any pre-existing object
     qual = "Independencies.closure.<locals>.sg2"
 
     def variants(self, ex):
@@ -88,6 +90,7 @@ class SG2(_Rule):
 
 
 class SG3(_Rule):
+    pure = True   # does not modify any pre-existing object
     qual = "Independencies.closure.<locals>.sg3"
 
     def variants(self, ex):
@@ -123,6 +126,7 @@ register(SG3())
 
 
 class IAEq(Contract):
+    pure = True   # does not modify any pre-existing object
     file = FILE
     qual = "IndependenceAssertion.__eq__"
 
@@ -142,6 +146,7 @@ class IAEq(Contract):
 
 
 class IAHash(Contract):
+    pure = True   # does not modify any pre-existing object
     """2-safety: assertions equal up to symmetry hash equal (needed by set()/dict membership in closure)."""
     file = FILE
     qual = "IndependenceAssertion.__hash__"
@@ -170,6 +175,7 @@ def vstruct(E, a, b, c):
 
 
 class GetImmoralities(Contract):
+    pure = True   # does not modify any pre-existing object
     file = "pgmpy/base/DAG.py"
     qual = "DAG.get_immoralities"
 
@@ -235,6 +241,7 @@ def VSP(ex, E):
 
 
 class VStructures(Contract):
+    pure = True   # does not modify any pre-existing object
     """nested helper of is_iequivalent: the set of (frozenset({a,b}), c) for unshielded colliders a -> c <- b."""
     file = "pgmpy/base/DAG.py"
     qual = "DAG.is_iequivalent.<locals>.v_structures"
@@ -267,6 +274,7 @@ register(VStructures())
 
 
 class IsIEquivalent(Contract):
+    pure = True   # does not modify any pre-existing object
     """post taken from the statement: same skeleton and same v-structures (with their colliders)."""
     file = "pgmpy/base/DAG.py"
     qual = "DAG.is_iequivalent"
@@ -335,6 +343,7 @@ def listed(S, x):
 
 
 class ClosureAssumed(Contract):
+    pure = True   # does not modify any pre-existing object
     """ASSUMED contract of Independencies.closure() as a callee (never verified here: the rule functions sg1/sg2/sg3 are verified
     separately and sg3 is known to be unsound, K01): it returns a new Independencies object whose assertion set is a function CL
     of the receiver's assertion set and does not touch the receiver."""
@@ -354,6 +363,7 @@ register(ClosureAssumed())
 
 
 class Contains(Contract):
+    pure = True   # does not modify any pre-existing object
     file = FILE
     qual = "Independencies.contains"
 
@@ -367,6 +377,7 @@ class Contains(Contract):
 
 
 class Entails(Contract):
+    pure = True   # does not modify any pre-existing object
     """entails(other)  <=>  every assertion of `other` is found (up to symmetry) in self.closure()"""
     file = FILE
     qual = "Independencies.entails"
@@ -389,6 +400,7 @@ class Entails(Contract):
 
 
 class IsEquivalent(Contract):
+    pure = True   # does not modify any pre-existing object
     file = FILE
     qual = "Independencies.is_equivalent"
 
